@@ -247,7 +247,7 @@ func init() {
 			ID: id, Gen: gen(strings.TrimSuffix(id, "rd")), Impl: rdImpl, Oracle: oracle,
 			FindingKey: func(line, out, clause string) string { return clause },
 			Nontrivial: func(line, out string) bool { return strings.Contains(line, ",") },
-			NoShrink:   true, Timeout: 20 * time.Second,
+			NoShrink:   true, Timeout: 20 * time.Second, Timed: true,
 			Rule: "the real reader goroutine over the in-memory transport: streams of 1..3 packets (bodies of 1..5 DONE packages, header-only packets) cut at every byte offset and ended by reset / hang (every offset) or EOF (packet boundaries and sampled inner offsets in the quick tier, every offset in the thorough tier; an EOF inside a packet surfaces after the 1 s read timeout), with read schedules that split headers and bodies. Non-trivial = more than one packet",
 			Assumptions: []string{"net.Conn read semantics: n > 0 ⇒ err = nil; a zero-length read returns (0, nil)", "PacketReadTimeout = 1 s in the harness"},
 		}
